@@ -7,7 +7,7 @@ import "fmt"
 // vocabulary covering every lexer rule, plus hand-picked nestings — same
 // accept/reject and the same migrated text (which reflects the tree).
 func VerifSelftest_LegacyParser() string {
-	vocab := []string{"contact.name", "1", "2.5", `"s""t"`, "TRUE", "(", ")", ",", "+", "-", "*", "/", "^", "=", "<>", "<=", "&", "SUM", "LEFT", "x"}
+	vocab := []string{"contact.name", "1", "2.5", `"s""t"`, "TRUE", "(", ")", ",", "+", "-", "*", "/", "^", "=", "<>", "<=", "&", "SUM", "LEFT", "x", `"`, `"a""`, "$"}
 	n, accepted := 0, 0
 	check := func(e string) string {
 		n++
